@@ -352,6 +352,15 @@ def _interning(rep, m, fn):
             rep.check(ok, "C07.R5", NAME + ":miss-key-stored:%s@%s" % (txt[:40], norm(ast.unparse(st))[:40]), "a Quantity constructed after a miss under a key is stored under that key",
                       "after the lookup `%s` missed, the new Quantity is not stored under that same key on every path: repeating the very same request misses again and builds another object (the identical-object guarantee is lost, and the shared instance of the resolved spelling is replaced)" % txt,
                       node=st, fn=fn)
+    # a store never replaces an entry: every store under a key is made only where a lookup under that same key missed
+    # (otherwise an object handed out before is replaced by a new, equal one: the identical-object guarantee is lost)
+    for sn, kt in all_stores:
+        missed = [edges for edges, kt2, _txt in lookups if kt2 == kt and edges]
+        ok = any(sn not in cfg.reach(cfg.ENTRY, avoid_edges=edges) for edges in missed)
+        stx = cfg.ast[sn]
+        rep.check(ok, "C07.R5", NAME + ":store-after-miss:%s" % norm(ast.unparse(stx))[:70], "the intern table is written under a key only where a lookup under that key missed",
+                  "`%s` stores under a key that was not looked up (and found missing) on every path to the store: an entry that other requests already received is replaced by a new object"
+                  % norm(ast.unparse(stx))[:90], node=stx, fn=fn)
     # every store into the intern table: the key must be made of the request's own components
     # (as asked or as resolved); a constant component makes the entry answer requests that did not
     # resolve to this object
